@@ -741,7 +741,7 @@ def populate_filter_unit(ctx, sk, wu):
                 *self == *old(self), l0 == {L},
                 locations.entries().len() <= l0.len(), locations.entries() == l0.skip(l0.len() - locations.entries().len()),
                 {OD}.is_prefix_of(deps@),
-                forall|i: int| 0 <= i < l0.len() - locations.entries().len() ==> covers_expr::<R>({H}, {ENC}, (#[trigger] l0[i]).data.0.rv(), deps@),
+                forall|i: int| 0 <= i < l0.len() - locations.entries().len() ==> covers_expr::<R>({H}, {ENC}, (#[trigger] l0[i]).data.0.rv(), deps@), // [C19:loclist-refs]
             ensures locations.entries().len() == 0,
             decreases locations.entries().len(),'''},
                before=[('while let Some(location)', f'let ghost l0 = {L};'),
